@@ -62,7 +62,38 @@ def run(ctx):
                 wname = (a, [x.attr for x in ast.walk(a) if isinstance(x, ast.Attribute) and "pretext" in x.attr], c)
             if "description" in ks:
                 wdesc = (a, [x.attr for x in ast.walk(a) if isinstance(x, ast.Attribute) and "pretext" in x.attr], c)
-    if not wname or not wdesc:
+    # the renderer, evaluated over two small sets (syntactic rules below when the interpreter cannot follow it)
+    from sa import fd as _fd
+    F1 = _fd.Rec("IfCommand", tag="f1")
+    F2 = _fd.Rec("IfCommand", tag="f2")
+    we = None
+    try:
+        we = writer_eval(ctx, R, name_attr, desc_attr,
+                         [{"name": "n1", "description": "d1", "content": F1, "enabled": True},
+                          {"name": "n2", "description": "", "content": F2, "enabled": False}], ["fileinto"])
+        we0 = writer_eval(ctx, R, name_attr, desc_attr, [], ["fileinto"]) if we is not None else None
+    except AnalysisError:
+        raise
+    except Exception:
+        we = we0 = None
+    if we is not None and we0 is not None:
+        text, pre_ = we
+        NP_, DP_ = pre_[name_attr], pre_[desc_attr]
+        want = "<req>\n" + "%sn1\n%sd1\n<f1>" % (NP_, DP_) + "%sn2\n<f2>" % NP_
+        if text == want:
+            ctx.holds("N1", "renderer: require command, then per filter <%s><name> [<%s><description> when non-empty] <content>" % (name_attr, desc_attr))
+        else:
+            ctx.violation("N1", w, "writer-text", "for a set of two filters (one described) and one extension the renderer writes %r; the loader "
+                          "and the parser need %r" % (text, want), node=w.node,
+                          witness="reloaded filters are called 'Unnamed rule N', lose their description or their require line")
+        if we0[0] == "<req>\n":
+            ctx.holds("N1", "renderer: a set without filters still carries its require line")
+        else:
+            ctx.violation("N1", w, "writer-empty-set", "for a set that holds extensions but no filter the renderer writes %r instead of the "
+                          "require line" % (we0[0],), node=w.node,
+                          witness="add a fileinto filter, remove it, save and load: the reloaded set has lost its requires")
+        wname = wdesc = None
+    elif not wname or not wdesc:
         raise AnalysisError("N1", "renderer: name/description writes not found")
 
     from sa.template import template, shape, holes
@@ -73,7 +104,7 @@ def run(ctx):
         hs = holes(t)
         return shape(t) == "\0\0\n" and len(hs) == 2 and isinstance(hs[0].expr, ast.Attribute) and hs[0].expr.attr == marker \
             and all(h.spec is None for h in hs)
-    for what, (a, used, c), marker in (("name", wname, name_attr), ("description", wdesc, desc_attr)):
+    for what, (a, used, c), marker in ((("name", wname, name_attr), ("description", wdesc, desc_attr)) if wname else ()):
         if used == [marker] and fmt_ok(a, marker):
             ctx.holds("N1", "renderer writes <%s><%s>\\n" % (marker, what))
         else:
@@ -85,82 +116,129 @@ def run(ctx):
     def has_desc(fc):
         e, pol = fact_atom(fc)
         return pol is True and "description" in entry_keys(e)
-    if all(cfgw.guarded(x, has_desc) for x in cfgw.node_containing(wdesc[2])):
+    if not wdesc:
+        pass  # decided by the evaluation of the renderer
+    elif all(cfgw.guarded(x, has_desc) for x in cfgw.node_containing(wdesc[2])):
         ctx.holds("N1", "description written only when present and non-empty")
     else:
         ctx.violation("N1", w, "empty-description-written", "an empty description is written as a comment line", node=wdesc[2])
-    # reader
-    seen = {}
-    for st in walk_no_nested(r.node):
-        if isinstance(st, ast.If) and isinstance(st.test, ast.Call) and call_name(st.test) == "startswith" and st.test.args \
-                and isinstance(st.test.args[0], ast.Attribute) and "pretext" in st.test.args[0].attr:
-            marker = st.test.args[0].attr
-            for a in st.body:
-                if isinstance(a, ast.Assign) and isinstance(a.targets[0], ast.Name) and isinstance(a.value, ast.Call):
-                    v = a.value
-                    removed = None
-                    if call_name(v) == "replace" and len(v.args) >= 2 and isinstance(v.args[0], ast.Attribute) and const_value(ctx.program, r, v.args[1]) == "":
-                        removed = v.args[0].attr
-                    elif call_name(v) in ("removeprefix",) and v.args and isinstance(v.args[0], ast.Attribute):
-                        removed = v.args[0].attr
-                    seen[a.targets[0].id] = (marker, removed, a)
-                elif isinstance(a, ast.Assign) and isinstance(a.targets[0], ast.Name) and isinstance(a.value, ast.Subscript):
-                    t = norm(a.value.slice)
-                    removed = next((k for k in attrs if k in t), None)
-                    seen[a.targets[0].id] = (marker, removed, a)
-    for var, marker in (("name", name_attr), ("description", desc_attr)):
-        got = seen.get(var)
-        if got and got[0] == marker and got[1] == marker:
-            ctx.holds("N1", "loader: %s <- comment starting with %s, marker removed" % (var, marker))
+    # reader: evaluated over a five-command script when the interpreter can follow it, by its syntax otherwise
+    le = None
+    try:
+        le = loader_eval(ctx, R, PR, name_attr, desc_attr)
+    except AnalysisError:
+        raise
+    except Exception:
+        le = None
+    if le is not None:
+        reqs, entries, (f1, f2, f3) = le
+        ctx.holds("N1", "loader evaluated over require \"fileinto\"; <named+described>; require [..]; <named, disabled>; <unmarked>")
+        want = [("n1", "d1", f1, True), ("n2", "", f2, False), ("Unnamed rule 3", "", f3, True)]
+        shape_ok = len(entries) == 3 and all(isinstance(e_, dict) and {"name", "description", "content", "enabled"} <= set(e_) for e_ in entries)
+        if not shape_ok:
+            ctx.violation("N1", r, "entry-shape", "the loader does not append one {name, description, content, enabled} entry per filter "
+                          "(it built %r)" % ([sorted(e_) if isinstance(e_, dict) else e_ for e_ in entries],), node=r.node,
+                          witness="a saved set of three filters is reloaded as something else")
         else:
-            ctx.violation("N1", r, "reader-marker:%s" % var, "the loader takes the %s from comments marked %s and removes %s (expected %s for both)"
-                          % (var, got[0] if got else None, got[1] if got else None, marker), node=got[2] if got else r.node,
-                          witness="names and descriptions are swapped or keep their marker after a reload")
-    # defaults
-    defaults = {a.targets[0].id: a.value for a in walk_no_nested(r.node) if isinstance(a, ast.Assign) and isinstance(a.targets[0], ast.Name)
-                and a.targets[0].id in ("name", "description") and not isinstance(a.value, ast.Call)}
-    # ... for every filter anew: the default is set inside the loop over the parsed commands
-    outer = [lp for lp in walk_no_nested(r.node) if isinstance(lp, ast.For) and "result" in norm(lp.iter)]
-    per_filter = {}
-    for a in walk_no_nested(r.node):
-        if isinstance(a, ast.Assign) and isinstance(a.targets[0], ast.Name) and a.targets[0].id in ("name", "description") \
-                and not isinstance(a.value, ast.Call) and outer and any(x is a for x in outer[0].body):
-            per_filter[a.targets[0].id] = a
-    if "description" in defaults and const_value(ctx.program, r, defaults["description"]) == "" and outer and "description" not in per_filter:
-        ctx.violation("N1", r, "description-default-once", "the loader sets the default description once, before the loop over the commands: a "
-                      "filter without description inherits the description of the filter before it", node=r.node,
-                      witness="two filters, only the first with a description: after a reload both carry it")
-    elif "name" in defaults and outer and "name" not in per_filter:
-        ctx.violation("N1", r, "name-default-once", "the loader sets the default name once, before the loop over the commands: a "
-                      "filter without name comment inherits the name of the filter before it", node=r.node)
-    elif "description" in defaults and const_value(ctx.program, r, defaults["description"]) == "":
-        ctx.holds("N1", "loader defaults description to ''")
-    else:
-        ctx.violation("N1", r, "description-default", "the loader does not default a missing description to the empty string", node=r.node)
-    # the dict built by the loader carries the four fields from those variables
-    dicts = [d for d in ast.walk(r.node) if isinstance(d, ast.Dict)]
-    ok = False
-    for d in dicts:
-        keys = {const_value(ctx.program, r, k): v for k, v in zip(d.keys, d.values) if k is not None}
-        if {"name", "description", "content", "enabled"} <= set(keys):
-            ok = isinstance(keys["name"], ast.Name) and keys["name"].id == "name" and isinstance(keys["description"], ast.Name) \
-                and keys["description"].id == "description"
-            loopvar = next((lp.target.id for lp in walk_no_nested(r.node) if isinstance(lp, ast.For) and "result" in norm(lp.iter)), None)
-            ok = ok and isinstance(keys["content"], ast.Name) and keys["content"].id == loopvar
-            ed = keys["enabled"]
-            # ---- N2
-            ctx.rule("N2", "enabled = not <disabled recogniser>(content)")
-            if isinstance(ed, ast.UnaryOp) and isinstance(ed.op, ast.Not) and isinstance(ed.operand, ast.Call) \
-                    and call_name(ed.operand) == R.isdisabled.name and ed.operand.args and isinstance(ed.operand.args[0], ast.Name) \
-                    and ed.operand.args[0].id == loopvar:
-                ctx.holds("N2", "loader: enabled = not %s(content)" % R.isdisabled.name)
+            for (wn, wd, wc, we), e_ in zip(want, entries):
+                got = (e_["name"], e_["description"], e_["content"], e_["enabled"])
+                if e_["content"] is not wc:
+                    ctx.violation("N4", r, "result-order", "the loader does not attach each entry to its own command, in script order", node=r.node)
+                elif e_["name"] != wn:
+                    ctx.violation("N1", r, "reader-name", "the loader names the filter whose comments are %r %r (expected %r)"
+                                  % (wc.fields["hash_comments"], e_["name"], wn), node=r.node,
+                                  witness="filters are renamed, or take the name of another filter, after save and load")
+                elif e_["description"] != wd:
+                    ctx.violation("N1", r, "reader-description", "the loader gives the filter whose comments are %r the description %r "
+                                  "(expected %r)" % (wc.fields["hash_comments"], e_["description"], wd), node=r.node,
+                                  witness="a filter without description inherits the description of the filter before it")
+                elif e_["enabled"] is not we:
+                    ctx.rule("N2", "enabled = not <disabled recogniser>(content)")
+                    ctx.violation("N2", r, "enabled-polarity", "the loader marks a filter the recogniser calls %s as enabled=%r"
+                                  % ("enabled" if we else "disabled", e_["enabled"]), node=r.node,
+                                  witness="disabled filters come back enabled (or vice versa) after save and load")
+                else:
+                    ctx.holds("N1", "loader: %r -> name %r, description %r, enabled %r" % (wc.fields["hash_comments"], wn, wd, we))
+        if reqs == ['"fileinto"', '"copy"', '"imap4flags"'] or reqs == ["fileinto", "copy", "imap4flags"]:
+            ctx.rule("N4", "order and requires")
+            ctx.holds("N4", "loader requires every capability of every require command, string or list form (%r)" % (reqs,))
+        else:
+            ctx.rule("N4", "order and requires")
+            ctx.violation("N4", r, "requires-form", "the loader requires %r for `require \"fileinto\"; require [\"copy\", \"imap4flags\"];`"
+                          % (reqs,), node=r.node,
+                          witness="`require \"fileinto\";` (single string) is loaded character by character, or lists are ignored")
+    if le is None:
+        seen = {}
+        for st in walk_no_nested(r.node):
+            if isinstance(st, ast.If) and isinstance(st.test, ast.Call) and call_name(st.test) == "startswith" and st.test.args \
+                    and isinstance(st.test.args[0], ast.Attribute) and "pretext" in st.test.args[0].attr:
+                marker = st.test.args[0].attr
+                for a in st.body:
+                    if isinstance(a, ast.Assign) and isinstance(a.targets[0], ast.Name) and isinstance(a.value, ast.Call):
+                        v = a.value
+                        removed = None
+                        if call_name(v) == "replace" and len(v.args) >= 2 and isinstance(v.args[0], ast.Attribute) and const_value(ctx.program, r, v.args[1]) == "":
+                            removed = v.args[0].attr
+                        elif call_name(v) in ("removeprefix",) and v.args and isinstance(v.args[0], ast.Attribute):
+                            removed = v.args[0].attr
+                        seen[a.targets[0].id] = (marker, removed, a)
+                    elif isinstance(a, ast.Assign) and isinstance(a.targets[0], ast.Name) and isinstance(a.value, ast.Subscript):
+                        t = norm(a.value.slice)
+                        removed = next((k for k in attrs if k in t), None)
+                        seen[a.targets[0].id] = (marker, removed, a)
+        for var, marker in (("name", name_attr), ("description", desc_attr)):
+            got = seen.get(var)
+            if got and got[0] == marker and got[1] == marker:
+                ctx.holds("N1", "loader: %s <- comment starting with %s, marker removed" % (var, marker))
             else:
-                ctx.violation("N2", r, "enabled-polarity", "the loader sets enabled to %s (expected `not %s(<content>)`)" % (norm(ed), R.isdisabled.name),
-                              node=d, witness="disabled filters come back enabled (or vice versa) after save and load")
-    if ok:
-        ctx.holds("N1", "loader builds {name, description, content, enabled} from the decoded comment and the command")
-    else:
-        ctx.violation("N1", r, "entry-shape", "the loader does not build the entry from (name, description, command, status)", node=r.node)
+                ctx.violation("N1", r, "reader-marker:%s" % var, "the loader takes the %s from comments marked %s and removes %s (expected %s for both)"
+                              % (var, got[0] if got else None, got[1] if got else None, marker), node=got[2] if got else r.node,
+                              witness="names and descriptions are swapped or keep their marker after a reload")
+        # defaults
+        defaults = {a.targets[0].id: a.value for a in walk_no_nested(r.node) if isinstance(a, ast.Assign) and isinstance(a.targets[0], ast.Name)
+                    and a.targets[0].id in ("name", "description") and not isinstance(a.value, ast.Call)}
+        # ... for every filter anew: the default is set inside the loop over the parsed commands
+        outer = [lp for lp in walk_no_nested(r.node) if isinstance(lp, ast.For) and "result" in norm(lp.iter)]
+        per_filter = {}
+        for a in walk_no_nested(r.node):
+            if isinstance(a, ast.Assign) and isinstance(a.targets[0], ast.Name) and a.targets[0].id in ("name", "description") \
+                    and not isinstance(a.value, ast.Call) and outer and contains(outer[0], a):
+                per_filter[a.targets[0].id] = a
+        if "description" in defaults and const_value(ctx.program, r, defaults["description"]) == "" and outer and "description" not in per_filter:
+            ctx.violation("N1", r, "description-default-once", "the loader sets the default description once, before the loop over the commands: a "
+                          "filter without description inherits the description of the filter before it", node=r.node,
+                          witness="two filters, only the first with a description: after a reload both carry it")
+        elif "name" in defaults and outer and "name" not in per_filter:
+            ctx.violation("N1", r, "name-default-once", "the loader sets the default name once, before the loop over the commands: a "
+                          "filter without name comment inherits the name of the filter before it", node=r.node)
+        elif "description" in defaults and const_value(ctx.program, r, defaults["description"]) == "":
+            ctx.holds("N1", "loader defaults description to ''")
+        else:
+            ctx.violation("N1", r, "description-default", "the loader does not default a missing description to the empty string", node=r.node)
+        # the dict built by the loader carries the four fields from those variables
+        dicts = [d for d in ast.walk(r.node) if isinstance(d, ast.Dict)]
+        ok = False
+        for d in dicts:
+            keys = {const_value(ctx.program, r, k): v for k, v in zip(d.keys, d.values) if k is not None}
+            if {"name", "description", "content", "enabled"} <= set(keys):
+                ok = isinstance(keys["name"], ast.Name) and keys["name"].id == "name" and isinstance(keys["description"], ast.Name) \
+                    and keys["description"].id == "description"
+                loopvar = next((lp.target.id for lp in walk_no_nested(r.node) if isinstance(lp, ast.For) and "result" in norm(lp.iter)), None)
+                ok = ok and isinstance(keys["content"], ast.Name) and keys["content"].id == loopvar
+                ed = keys["enabled"]
+                # ---- N2
+                ctx.rule("N2", "enabled = not <disabled recogniser>(content)")
+                if isinstance(ed, ast.UnaryOp) and isinstance(ed.op, ast.Not) and isinstance(ed.operand, ast.Call) \
+                        and call_name(ed.operand) == R.isdisabled.name and ed.operand.args and isinstance(ed.operand.args[0], ast.Name) \
+                        and ed.operand.args[0].id == loopvar:
+                    ctx.holds("N2", "loader: enabled = not %s(content)" % R.isdisabled.name)
+                else:
+                    ctx.violation("N2", r, "enabled-polarity", "the loader sets enabled to %s (expected `not %s(<content>)`)" % (norm(ed), R.isdisabled.name),
+                                  node=d, witness="disabled filters come back enabled (or vice versa) after save and load")
+        if ok:
+            ctx.holds("N1", "loader builds {name, description, content, enabled} from the decoded comment and the command")
+        else:
+            ctx.violation("N1", r, "entry-shape", "the loader does not build the entry from (name, description, command, status)", node=r.node)
     rsrc = norm(R.isdisabled.node)
     if "IfCommand" in rsrc and "FalseCommand" in rsrc and "['test']" in rsrc:
         ctx.holds("N2", "recogniser tests for IfCommand with a FalseCommand test (the shape disablefilter builds)")
@@ -234,7 +312,9 @@ def run(ctx):
     reqs = {id(c): c for c in ast.walk(r.node) if isinstance(c, ast.Call) and call_name(c) == "require"}
     islist = any(("capabilities" in norm(x)) and ("== list" in norm(x) or ("isinstance" in norm(x) and "list" in norm(x)))
                  for x in ast.walk(r.node) if isinstance(x, (ast.Compare, ast.Call)))
-    if len(reqs) >= 2 and islist:
+    if le is not None:
+        pass  # decided by the evaluation above
+    elif len(reqs) >= 2 and islist:
         ctx.holds("N4", "loader requires capabilities in both string and list form")
     else:
         ctx.violation("N4", r, "requires-form", "the loader does not handle both the string and the list form of require", node=r.node,
@@ -251,6 +331,10 @@ def run(ctx):
         ctx.holds("N4", "require command built from the full requires list")
     else:
         ctx.violation("N4", R.gen_require or w, "require-list", "the require command is not built from the full requires list", node=(R.gen_require or w).node)
+    # what is loaded comes from the parser that was handed in, not from process-wide state another parse may have changed since
+    from .c13 import registry_readers
+    ctx.rule("H4", "the loader reads nothing but its parser: no function outside the gates reads the process-global extension registry")
+    registry_readers(ctx, PR)
     # the saved script must be one the parser accepts (else nothing can be loaded from it): the factory's rendering rules (F1-F6 of
     # C06) and the decoding of string tokens (P15 of C01) are part of this property's mechanism
     from .c06 import factory_rules
@@ -258,3 +342,178 @@ def run(ctx):
     from .c01 import p15
     p15(ctx, PR)
 
+
+
+def loader_eval(ctx, R, PR, name_attr, desc_attr):
+    """Finite-domain evaluation of the loader over a parsed script of five top-level commands (two require commands - one
+    capability written as a string, two written as a list - and three filters: name + description, name only, no marker).
+    Returns (requires, entries) - the arguments of require() in call order and the appended entries - or None when the
+    interpreter cannot follow the loader (then the syntactic reader rules decide)."""
+    from sa import fd
+    prog = ctx.program
+    r = R.m["from_parser_result"]
+    init = R.m.get("__init__")
+    pre = {}
+    for a in walk_no_nested(init.node):
+        if isinstance(a, ast.Assign) and isinstance(a.targets[0], ast.Attribute) and isinstance(a.value, ast.Name) and "pretext" in a.targets[0].attr:
+            dflt = init.defaults().get(a.value.id)
+            v = const_value(prog, init, dflt) if dflt is not None else TOP
+            if not isinstance(v, str):
+                return None
+            pre[a.targets[0].attr] = v
+    NP, DP = pre.get(name_attr), pre.get(desc_attr)
+    if NP is None or DP is None:
+        return None
+    mk = fd.Rec
+    f1 = mk("IfCommand", hash_comments=[(NP + "n1").encode(), (DP + "d1").encode()], disabled=False, tag="f1")
+    f2 = mk("IfCommand", hash_comments=[(NP + "n2").encode()], disabled=True, tag="f2")
+    f3 = mk("IfCommand", hash_comments=[], disabled=False, tag="f3")
+    q1 = mk("RequireCommand", arguments={"capabilities": '"fileinto"'}, hash_comments=[], tag="q1")
+    q2 = mk("RequireCommand", arguments={"capabilities": ['"copy"', '"imap4flags"']}, hash_comments=[], tag="q2")
+    result = [q1, f1, q2, f2, f3]
+    parser = mk("Parser", result=result)
+    selfp = r.params[0]
+    pparam = r.params[1] if len(r.params) > 1 else None
+    if pparam is None:
+        return None
+
+    def class_names(e):
+        out = []
+        for x in (e.elts if isinstance(e, ast.Tuple) else [e]):
+            out.append(x.attr if isinstance(x, ast.Attribute) else (x.id if isinstance(x, ast.Name) else None))
+        return out
+
+    def oracle(interp, e, name, recv, args, kw, st):
+        if name == "isinstance" and len(e.args) == 2 and args and isinstance(args[0], fd.Const) and isinstance(args[0].v, fd.Rec):
+            names = class_names(e.args[1])
+            if None in names:
+                return None
+            rc = prog.cls(args[0].v.cls)
+            mro = [c.name for c in prog.mro(rc)] if rc is not None else [args[0].v.cls]
+            return [(fd.Const(any(n in mro for n in names)), None)]
+        if name in ("self.require", "require") and args:
+            return [(fd.Const(None), ("require", args[0]))]
+        if name == "getattr" and len(args) >= 2 and isinstance(args[0], fd.Const) and isinstance(args[0].v, fd.Rec) \
+                and isinstance(args[1], fd.Const) and isinstance(args[1].v, str):
+            if args[1].v in args[0].v.fields:
+                return [(fd.Const(args[0].v.fields[args[1].v]), None)]
+            if len(args) == 3:
+                return [(args[2], None)]
+        if name and name.startswith("self.") and R.isdisabled is not None and name[5:] == R.isdisabled.name and args \
+                and isinstance(args[0], fd.Const) and isinstance(args[0].v, fd.Rec):
+            return [(fd.Const(args[0].v.fields.get("disabled", False)), None)]
+        if name and name.startswith("self.") and name[5:] in R.m and R.m[name[5:]] is not r:
+            return fd.Inline(R.m[name[5:]])
+        return None
+
+    def getattr_hook(interp, rec, e, st):
+        # a property of the object's class, evaluated on the stand-in
+        c = prog.cls(rec.cls)
+        if c is not None:
+            for k in prog.mro(c):
+                m = k.methods.get(e.attr)
+                if m is not None and "property" in m.decorators:
+                    sub = fd.Interp(m.node, k.name, oracle, loop_unroll=8, max_depth=2)
+                    sub.getattr_hook = getattr_hook
+                    outs = []
+                    for p_ in sub.run({m.params[0]: fd.Const(rec)}, fd.State({}, st.events, {})):
+                        s2 = st.copy()
+                        s2.events = list(p_.events)
+                        outs.append((fd.Exc(p_.value, p_.node) if p_.kind == "raise" else p_.value, s2))
+                    return outs
+        return [(fd.Unknown(norm(e)), st)]
+    it = fd.Interp(r.node, R.cls.name, oracle, loop_unroll=8, max_depth=3)
+    it.getattr_hook = getattr_hook
+    env = {pparam: fd.Const(parser), "%s.filters" % selfp: fd.Const([]), "%s.requires" % selfp: fd.Const([]),
+           "%s.%s" % (selfp, name_attr): fd.Const(NP), "%s.%s" % (selfp, desc_attr): fd.Const(DP)}
+    try:
+        paths = it.run(env)
+    except fd.TooManyPaths:
+        return None
+    if len(paths) != 1 or paths[0].kind != "return":
+        return None
+    p_ = paths[0]
+    reqs = [ev[1].v if isinstance(ev[1], fd.Const) else None for ev in p_.events if ev[0] == "require"]
+    fl = p_.env.get("%s.filters" % selfp)
+    if not isinstance(fl, fd.Const) or not isinstance(fl.v, list) or None in reqs:
+        return None
+    return reqs, fl.v, (f1, f2, f3)
+
+
+def writer_eval(ctx, R, name_attr, desc_attr, filters, requires):
+    """Finite-domain evaluation of the renderer over a given set: the text written to the target, with <tag> standing for what a
+    command object prints for itself, or None when the interpreter cannot follow the renderer."""
+    from sa import fd
+    prog = ctx.program
+    w = R.m["tosieve"]
+    init = R.m.get("__init__")
+    pre = {}
+    for a in walk_no_nested(init.node):
+        if isinstance(a, ast.Assign) and isinstance(a.targets[0], ast.Attribute) and isinstance(a.value, ast.Name) and "pretext" in a.targets[0].attr:
+            dflt = init.defaults().get(a.value.id)
+            v = const_value(prog, init, dflt) if dflt is not None else TOP
+            if not isinstance(v, str):
+                return None
+            pre[a.targets[0].attr] = v
+    selfp = w.params[0]
+    target = w.params[1] if len(w.params) > 1 else None
+    if target is None:
+        return None
+    counter = [0]
+
+    def buf_key(rec):
+        return "@sio:%s" % rec.fields["tag"]
+
+    def oracle(interp, e, name, recv, args, kw, st):
+        f_ = e.func
+        if isinstance(f_, ast.Attribute) and f_.attr == "StringIO" and not args:
+            counter[0] += 1
+            rec = fd.Rec("StringIO", tag="b%d" % counter[0])
+            st.env[buf_key(rec)] = fd.Const("")
+            return [(fd.Const(rec), None)]
+        if isinstance(recv, fd.Const) and isinstance(recv.v, fd.Rec) and recv.v.cls == "StringIO":
+            k = buf_key(recv.v)
+            if name == "write" and args:
+                cur = st.env.get(k)
+                st.env[k] = fd.Const(cur.v + args[0].v) if isinstance(cur, fd.Const) and isinstance(args[0], fd.Const) and isinstance(args[0].v, str) \
+                    else fd.Unknown("buffer")
+                return [(fd.Const(None), None)]
+            if name == "getvalue":
+                return [(st.env.get(k, fd.Unknown("buffer")), None)]
+            if name == "close":
+                return [(fd.Const(None), None)]
+        if name == "write" and isinstance(f_, ast.Attribute) and isinstance(f_.value, ast.Name) and f_.value.id == target:
+            return [(fd.Const(None), ("write", args[0] if args else None))]
+        if name == "tosieve" and isinstance(recv, fd.Const) and isinstance(recv.v, fd.Rec):
+            tgt = kw.get("target") or (args[-1] if args else None)
+            text = "<%s>" % recv.v.fields.get("tag", "?")
+            if isinstance(tgt, fd.Const) and isinstance(tgt.v, fd.Rec) and tgt.v.cls == "StringIO":
+                k = buf_key(tgt.v)
+                cur = st.env.get(k)
+                st.env[k] = fd.Const(cur.v + text) if isinstance(cur, fd.Const) else fd.Unknown("buffer")
+                return [(fd.Const(None), None)]
+            return [(fd.Const(None), ("write", fd.Const(text)))]
+        if name and name.startswith("self.") and R.gen_require is not None and name[5:] == R.gen_require.name:
+            reqs = st.env.get("%s.requires" % selfp)
+            if isinstance(reqs, fd.Const) and not reqs.v:
+                return [(fd.Const(None), None)]
+            return [(fd.Const(fd.Rec("RequireCommand", tag="req")), None)]
+        if name and name.startswith("self.") and name[5:] in R.m and R.m[name[5:]] is not w:
+            return fd.Inline(R.m[name[5:]])
+        return None
+    it = fd.Interp(w.node, R.cls.name, oracle, loop_unroll=max(4, len(filters) + 1), max_depth=3)
+    env = {"%s.filters" % selfp: fd.Const(filters), "%s.requires" % selfp: fd.Const(requires), target: fd.Unknown("target"),
+           "%s.%s" % (selfp, name_attr): fd.Const(pre.get(name_attr)), "%s.%s" % (selfp, desc_attr): fd.Const(pre.get(desc_attr))}
+    try:
+        paths = it.run(env)
+    except fd.TooManyPaths:
+        return None
+    if len(paths) != 1 or paths[0].kind != "return":
+        return None
+    out = []
+    for ev in paths[0].events:
+        if ev[0] == "write":
+            if not (isinstance(ev[1], fd.Const) and isinstance(ev[1].v, str)):
+                return None
+            out.append(ev[1].v)
+    return "".join(out), pre
